@@ -181,6 +181,10 @@ func confirmKernel(ld *Loaded, c *candidate) (bool, string) {
 		if len(kv) != 2 {
 			continue
 		}
+		if strings.Contains(kv[1], "sym") {
+			// the engine has no concrete value here (an uninterpreted maths routine): nothing to compare - not validated
+			return false, "concrete re-execution aborted: symbolic result (uninterpreted routine)"
+		}
 		if nv, ok := nat[kv[0]]; ok && normNaN(nv) != normNaN(kv[1]) {
 			return false, fmt.Sprintf("engine/native disagreement on %s: gosym %s native %s", kv[0], kv[1], nv)
 		}
